@@ -17,7 +17,7 @@ type tsArm struct {
 	Val    ssa.Value  // the asserted value (Extract #0), nil for nil/default
 	Entry  *ssa.BasicBlock
 	Test   ssa.Instruction
-	Method string // for single-method interfaces
+	Method string        // for single-method interfaces
 	Fn     *ssa.Function // function containing the arm (Update, or the helper Update delegates the text to)
 }
 
